@@ -104,6 +104,10 @@ func NewGen(w *World, seed uint64, profile string) *Gen {
 			if k < 2 {
 				g.setup = append(g.setup, Op{K: "delegate", Creator: i, Val: 1 + k%2, Amount: int64(150000 + g.R.Intn(400000))})
 				g.setup = append(g.setup, Op{K: "reset", Creator: i, Status: 15, PeerOk: &t, Val: 1 + k%2})
+			} else {
+				// the other providers lock nearly all their coins in a delegation: a renewal top-up they cannot fund becomes
+				// a recorded collateral debt, so that exports carry pledge debts of several providers
+				g.setup = append(g.setup, Op{K: "delegate", Creator: i, Val: 1, Amount: 999_999_999_000 - int64(500+g.R.Intn(4000))})
 			}
 		}
 	}
@@ -555,6 +559,11 @@ func (g *Gen) didTx() Op {
 		} else if r.Chance(30) {
 			op.Eth = true
 			op.EthMixed = r.Chance(50) // the EIP-55 spelling of the account id
+		}
+		if op.Tamper == "" && op.AccountId == "" && r.Chance(12) {
+			// the same account under an id with a trailing segment: the signature check reads the first three segments
+			// only, so only the CAIP-10 pattern stands between this and a second binding of the account
+			op.AcctSuffix = []string{":1", ":" + ChainID, "/x"}[r.Intn(3)]
 		}
 		return op
 	case 4, 5:
@@ -1395,6 +1404,10 @@ func (g *Gen) faultTx() Op {
 	reporter := []int{1, 2, 1, 2, 3, 11}[r.Intn(6)]
 	var fs []FaultIn
 	var prov int
+	if r.Chance(5) {
+		// governance changes who the fishmen are: accounts 1,2 (the genesis list), 2,3 or 1 alone
+		return Op{K: "govfishmen", Fish: [][]int{{2, 3}, {3, 4}, {2}}[r.Intn(3)]}
+	}
 	if r.Chance(10) {
 		// a fishman reports the destination of a migration that has not taken the shard over yet
 		for _, x := range li.shards {
